@@ -3,6 +3,16 @@ From Coq Require Import QArith Qround Lia Lqa ZifyBool.
 Open Scope Q_scope.
 Open Scope list_scope.
 
+Lemma fold_red_from l : forall a, fold_left (fun a x => Qred (a + x)) l a == a + qsum l.
+Proof.
+  induction l as [|x l IH]; intros a; cbn [fold_left]; [rewrite qsum_nil; ring|].
+  rewrite IH, Qred_correct, qsum_cons. ring.
+Qed.
+Lemma qsum_red_eq l : qsum_red l == qsum l.
+Proof. unfold qsum_red. rewrite fold_red_from. ring. Qed.
+Lemma odur_qsum s : odur s == qsum (o_l s).
+Proof. apply qsum_red_eq. Qed.
+
 Definition idq (x : Q) : Q := x.
 Definition nonneg (l : list Q) : Prop := Forall (fun x => 0 <= x) l.
 
@@ -47,7 +57,7 @@ Proof.
       assert (HD0 : ~ odur s == 0) by (rewrite HD; lra).
       destruct (Qeq_bool (odur s) 0) eqn:E0; [apply Qeq_bool_iff in E0; contradiction|].
       eexists. split; [reflexivity|]. split.
-      * rewrite qsum_map_mul. fold (odur s). field. exact HD0.
+      * rewrite qsum_map_mul, <- odur_qsum. field. exact HD0.
       * apply nonneg_map_mul; [exact HN|]. apply Qle_shift_div_l; [rewrite HD; exact Hd|lra].
 Qed.
 
@@ -63,7 +73,7 @@ Proof.
   assert (X : 0 <= odur s - 2 * (1 # 4)) by lra.
   destruct (setd_ok s _ d X I (or_introl P)) as (b & Hb & Sb & Nb).
   rewrite Ha, Hb. cbn [obind]. eexists. split; [reflexivity|]. split.
-  - unfold odur, idq. cbn [o_l]. rewrite !qsum_app, qsum_cons, qsum_nil, Sa, Sb. rewrite <- HD. unfold odur. ring.
+  - rewrite odur_qsum. unfold idq. cbn [o_l]. rewrite !qsum_app, qsum_cons, qsum_nil, Sa, Sb. rewrite <- HD. ring.
   - cbn [o_l]. apply nonneg_app; [exact Na|]. apply nonneg_app; [repeat constructor; unfold idq; lra|exact Nb].
 Qed.
 
@@ -74,7 +84,7 @@ Proof.
   assert (P : 0 < d) by (rewrite <- HD; lra).
   destruct (setd_ok s md d ltac:(lra) I (or_introl P)) as (a & Ha & Sa & Na).
   rewrite Ha. cbn [obind]. eexists. split; [reflexivity|]. split.
-  - unfold odur, idq. cbn [o_l]. rewrite !qsum_app, !qsum_cons, qsum_nil, Sa, qsum_zero_copy. rewrite <- HD. unfold odur. ring.
+  - rewrite odur_qsum. unfold idq. cbn [o_l]. rewrite !qsum_app, !qsum_cons, qsum_nil, Sa, qsum_zero_copy. rewrite <- HD. ring.
   - cbn [o_l]. unfold idq. apply nonneg_app; [apply nonneg_zero_copy|].
     apply nonneg_app; [repeat constructor; lra|]. apply nonneg_app; [exact Na|].
     repeat constructor; lra.
@@ -126,7 +136,7 @@ Proof.
     assert (1 * md <= inject_Z (Qfloor (odur s / md)) * md) by (apply Qmult_le_compat_r; [exact H0|lra]). lra. }
   destruct (setd_ok s md d ltac:(lra) I (or_introl P)) as (a & Ha & Sa & Na).
   rewrite Ha. cbn [obind]. eexists. split; [reflexivity|]. split.
-  - unfold odur at 1. cbn [o_l]. destruct (is_intq (odur s / md)) eqn:Ei.
+  - rewrite odur_qsum. cbn [o_l]. destruct (is_intq (odur s / md)) eqn:Ei.
     + rewrite (roll_pieces_sum _ _ _ _ Sa), Z2Nat.id by exact Hf. rewrite (is_intq_floor _ Ei). rewrite <- HD. field. lra.
     + rewrite qsum_app, (roll_pieces_sum _ _ _ _ Sa), qsum_cons, qsum_nil, Z2Nat.id by exact Hf. unfold idq. rewrite <- HD. ring.
   - cbn [o_l]. destruct (is_intq (odur s / md)); [apply roll_pieces_nonneg; [exact Na|lra]|].
@@ -142,7 +152,7 @@ Proof.
   { destruct (Qlt_le_dec 0 d) as [L|L]; [left; exact L|right; left]. assert (E : d == 0) by lra. rewrite HD, E. reflexivity. }
   destruct (setd_ok s _ d X I C) as (a & Ha & Sa & Na).
   rewrite Ha. cbn [obind]. eexists. split; [reflexivity|]. split.
-  - unfold odur at 1, idq. cbn [o_l]. rewrite qsum_cons, Sa. rewrite <- HD. field.
+  - rewrite odur_qsum. unfold idq. cbn [o_l]. rewrite qsum_cons, Sa. rewrite <- HD. field.
   - cbn [o_l]. constructor; [exact X|exact Na].
 Qed.
 
@@ -154,7 +164,7 @@ Proof.
   assert (X : 0 <= odur s - (1 # 12)) by lra.
   destruct (setd_ok s _ d X I (or_introl P)) as (a & Ha & Sa & Na).
   rewrite Ha. cbn [obind]. eexists. split; [reflexivity|]. split.
-  - unfold odur at 1, idq. cbn [o_l]. rewrite qsum_cons, Sa. rewrite <- HD. ring.
+  - rewrite odur_qsum. unfold idq. cbn [o_l]. rewrite qsum_cons, Sa. rewrite <- HD. ring.
   - cbn [o_l]. constructor; [unfold idq; lra|exact Na].
 Qed.
 
@@ -165,7 +175,7 @@ Proof.
   destruct (negb (next_some c) || negb (next_isnote c) || negb (cur_isnote c)) eqn:E1; [inv_intro; exact I|].
   destruct (interp_delta c =? 0)%Z eqn:E2; [inv_intro; exact I|].
   eexists. split; [reflexivity|]. split.
-  - unfold odur at 1. cbn [o_l]. rewrite interpolate_sum. exact HD.
+  - rewrite odur_qsum. cbn [o_l]. rewrite interpolate_sum. exact HD.
   - cbn [o_l]. apply interpolate_nonneg. rewrite HD. exact Hd.
 Qed.
 
@@ -189,16 +199,16 @@ Theorem combination_ok c ts d : 0 <= d ->
   exists l, ideal_all c ts d = Some l /\ qsum l == d /\ nonneg l.
 Proof.
   intros Hd. assert (I : Inv d (mkO true [d])).
-  { split; [unfold odur; cbn [o_l]; rewrite qsum_cons, qsum_nil; ring|repeat constructor; exact Hd]. }
+  { split; [rewrite odur_qsum; cbn [o_l]; rewrite qsum_cons, qsum_nil; ring|repeat constructor; exact Hd]. }
   destruct (pipeline_inv c ts d _ Hd I) as (s' & H & [S N]).
-  exists (o_l s'). unfold ideal_all. fold idq. rewrite H. split; [reflexivity|]. split; [exact S|exact N].
+  exists (o_l s'). unfold ideal_all. fold idq. rewrite H. split; [reflexivity|]. split; [rewrite <- odur_qsum; exact S|exact N].
 Qed.
 
 (* with the library's rounding: whatever realize_all returns has the note's duration (the assertion at the end of realize_tags) *)
 Lemma realize_all_total c ts d l : realize_all c ts d = Some l -> qsum l == d.
 Proof.
   unfold realize_all. destruct (pipeline sd true c ts (mkO true [d])) as [s|]; cbn [obind]; [|discriminate].
-  destruct (Qeq_bool (odur s) d) eqn:E; [|discriminate]. intros H. injection H as <-. apply Qeq_bool_iff. exact E.
+  destruct (Qeq_bool (odur s) d) eqn:E; [|discriminate]. intros H. injection H as <-. rewrite <- odur_qsum. apply Qeq_bool_iff. exact E.
 Qed.
 
 (* before the repair of Melody.set_duration: a zero-length note tagged suspension_prev and suspension_prev_repeat raised *)
